@@ -7,13 +7,14 @@ run on the implementation's outputs.
 Observables per generated triangle t (1-4 slices, Cell / CumulativeCell / IncrementalCell):
   * json.loads(t.to_json()) (PLAIN parser), t.to_dict(), to_json(path), to_json(handle)
         = model `toDict` AST (object key order canonicalised, int/float/bool/None kinds kept)
-        and Spec `textSpec` (read plainly it is the original triangle) + `slicesOnce`
+        and Spec `textSpec` (read plainly, every date STRICTLY `YYYY-MM-DD` — `plainReadStrict` — it is
+        the original triangle) + `slicesOnce`
   * json_string_to_triangle / from_json(path) / from_json(handle) / from_dict
         = model `fromDict (toDict t)` and Spec `loadSpec` (= original: dates incl. prev, class, all
         eight metadata attributes with kinds, field names, int vs float, None, arrays with dtype+order)
   * JSON text printed by the Lean driver (its own serializer, exact decimal floats) -> from_json = input
   * documents written by the harness's own serializer (random key order, defaults omitted, explicit
-    nulls, un-padded month/day) -> from_dict = model `fromDict` = `Triangle(plainRead doc)`
+    nulls, un-padded month/day) -> from_dict = model `fromDict` = `Triangle(plainRead doc)` (the LENIENT reader)
   * out-of-domain stream (risk_basis None, hook trigger names as field/detail keys): model vs
     implementation only (no Spec): both raise / both give the same cells.
   * SEQUENCE stream (state carried between calls): before the calls under test, in the same process,
